@@ -222,6 +222,42 @@ add("c15-unknown-option", "C15", "reject",
 add("c15-field-attr-other-mode", "C15", "reject",
     "#[derive(Collect)]\n#[collect(no_drop)]\nstruct S<'gc> { p: Gc<'gc, i32>,\n #[cfg_attr(not(twin), collect(no_drop))] q: i32 }\nfn main() {}", DERIVE)
 
+# require_static fields must get their 'static bound under EVERY combination of type-level options
+# (otherwise a branded reference / pointer can sit untraced in the root and outlive its callback)
+RS_FIELD_TYPES = {
+    "gc": ("Gc<'gc, i32>", "Gc::new(mc, 1)"),
+    "weak": ("GcWeak<'gc, i32>", "Gc::downgrade(Gc::new(mc, 1))"),
+    "ref": ("&'gc i32", "Gc::as_ref(Gc::new(mc, 1))"),
+    "vec-gc": ("Vec<Gc<'gc, i32>>", "vec![Gc::new(mc, 1)]"),
+}
+RS_MODES = {
+    "no_drop": "no_drop",
+    "unsafe_drop": "unsafe_drop",
+    "no_drop-bound-empty": 'no_drop, bound = ""',
+    "unsafe_drop-bound-empty": 'unsafe_drop, bound = ""',
+    "no_drop-bound-where": "no_drop, bound = \"where u8: Copy\"",
+    "no_drop-gc_lifetime": "no_drop, gc_lifetime = 'gc",
+    "no_drop-gc_lifetime-bound": "no_drop, gc_lifetime = 'gc, bound = \"\"",
+}
+for fname, (fty, fctor) in RS_FIELD_TYPES.items():
+    for mname, mode in RS_MODES.items():
+        for shape in ("struct", "tuple", "enum"):
+            if shape == "struct":
+                decl = f"struct S<'gc> {{ p: Gc<'gc, i32>,\n #[cfg(not(twin))] #[collect(require_static)] q: {fty},\n #[cfg(twin)] #[collect(require_static)] q: Rc<i32>,\n}}"
+                bad, good = f"S {{ p: Gc::new(mc, 0), q: {fctor} }}", "S { p: Gc::new(mc, 0), q: Rc::new(2) }"
+            elif shape == "tuple":
+                decl = f"#[cfg(not(twin))] struct S<'gc>(Gc<'gc, i32>, #[collect(require_static)] {fty});\n#[derive(Collect)]\n#[collect({mode})]\n#[cfg(twin)] struct S<'gc>(Gc<'gc, i32>, #[collect(require_static)] Rc<i32>);"
+                bad, good = f"S(Gc::new(mc, 0), {fctor})", "S(Gc::new(mc, 0), Rc::new(2))"
+            else:
+                decl = f"enum S<'gc> {{ A(Gc<'gc, i32>), B {{\n #[cfg(not(twin))] #[collect(require_static)] q: {fty},\n #[cfg(twin)] #[collect(require_static)] q: Rc<i32>,\n }} }}"
+                bad, good = f"S::B {{ q: {fctor} }}", "S::B { q: Rc::new(2) }"
+            for prop in ("C15", "C12"):
+                if prop == "C12" and not (fname == "ref" or (fname == "gc" and shape == "struct")):
+                    continue
+                add(f"{prop.lower()}-rs-field-{fname}-{mname}-{shape}", prop, "reject",
+                    f"#[derive(Collect)]\n#[collect({mode})]\n{decl}\nfn main() {{\n #[cfg(not(twin))] let mut arena = Arena::<Rootable![S<'_>]>::new(|mc| {bad});\n #[cfg(twin)] let mut arena = Arena::<Rootable![S<'_>]>::new(|mc| {good});\n arena.finish_cycle();\n}}", LT + TR,
+                    note="require_static field of a non-'static type under type-level options: " + mode)
+
 # ------------------------------------------------------------------------------------------------
 # C13: Write references cannot be forged, projection cannot pass through a dereference, unlocking
 # needs a Write reference, plain Cell / RefCell cannot hold pointers
@@ -346,6 +382,51 @@ c13run("c13-run-from_mut-rc-clone", "r: Rc<Lock<Option<Child<'gc>>>>", "r: Rc::n
 c13run("c13-run-from_mut-arc-clone", "r: Arc<Lock<Option<Child<'gc>>>>", "r: Arc::new(Lock::new(None))",
        "let mut rc = parent.r.clone(); Write::from_mut(&mut rc).as_deref().unlock().set(Some(child));",
        "parent.r.get().map(|c| c.0)", expect="reject-or-run", note="Write::from_mut(&mut arc.clone()).as_deref() for Arc")
+
+# ---- systematic forge family: every way to obtain a Write of some handle type that (transitively)
+# points at a lock inside the already marked parent, crossed with every way to get from there to
+# the unlocked cell. Most combinations simply do not type-check (that is the point); whatever does
+# compile is run and must not lose the child.
+FORGE_SOURCES = {
+    # name: (declaration of `src` (a value we own exclusively), parent field decl, parent field init)
+    "ref": ("let mut src: &Lock<Option<Child<'_>>> = &parent.slot;", "slot: Lock<Option<Child<'gc>>>", "slot: Lock::new(None)"),
+    "refref": ("let inner: &Lock<Option<Child<'_>>> = &parent.slot; let mut src: &&Lock<Option<Child<'_>>> = &inner;", "slot: Lock<Option<Child<'gc>>>", "slot: Lock::new(None)"),
+    "box-ref": ("let mut src: Box<&Lock<Option<Child<'_>>>> = Box::new(&parent.slot);", "slot: Lock<Option<Child<'gc>>>", "slot: Lock::new(None)"),
+    "vec-ref": ("let mut src: Vec<&Lock<Option<Child<'_>>>> = vec![&parent.slot];", "slot: Lock<Option<Child<'gc>>>", "slot: Lock::new(None)"),
+    "arr-ref": ("let mut src: [&Lock<Option<Child<'_>>>; 1] = [&parent.slot];", "slot: Lock<Option<Child<'gc>>>", "slot: Lock::new(None)"),
+    "opt-ref": ("let mut src: Option<&Lock<Option<Child<'_>>>> = Some(&parent.slot);", "slot: Lock<Option<Child<'gc>>>", "slot: Lock::new(None)"),
+    "res-ref": ("let mut src: Result<&Lock<Option<Child<'_>>>, ()> = Ok(&parent.slot);", "slot: Lock<Option<Child<'gc>>>", "slot: Lock::new(None)"),
+    "rc-ref": ("let mut src: Rc<&Lock<Option<Child<'_>>>> = Rc::new(&parent.slot);", "slot: Lock<Option<Child<'gc>>>", "slot: Lock::new(None)"),
+    "gc-copy": ("let mut src: Gc<'_, Parent<'_>> = parent;", "slot: Lock<Option<Child<'gc>>>", "slot: Lock::new(None)"),
+    "ref-parent": ("let mut src: &Parent<'_> = &*parent;", "slot: Lock<Option<Child<'gc>>>", "slot: Lock::new(None)"),
+    "ref-reflock": ("let mut src: &RefLock<Option<Child<'_>>> = &parent.slot;", "slot: RefLock<Option<Child<'gc>>>", "slot: RefLock::new(None)"),
+    "ref-oncelock": ("let mut src: &gc_arena::lock::OnceLock<Child<'_>> = &parent.slot;", "slot: gc_arena::lock::OnceLock<Child<'gc>>", "slot: gc_arena::lock::OnceLock::new()"),
+    "vecdeque-ref": ("let mut src: std::collections::VecDeque<&Lock<Option<Child<'_>>>> = [&parent.slot].into_iter().collect();", "slot: Lock<Option<Child<'gc>>>", "slot: Lock::new(None)"),
+    "btree-ref": ("let mut src: std::collections::BTreeMap<u8, &Lock<Option<Child<'_>>>> = [(0u8, &parent.slot)].into_iter().collect();", "slot: Lock<Option<Child<'gc>>>", "slot: Lock::new(None)"),
+}
+FORGE_PATHS = {
+    "unlock": "w.unlock()",
+    "deref-unlock": "w.as_deref().unlock()",
+    "deref2-unlock": "w.as_deref().as_deref().unlock()",
+    "idx-unlock": "w[0].unlock()",
+    "idx-deref-unlock": "w[0].as_deref().unlock()",
+    "idxkey-deref-unlock": "w[&0u8].as_deref().unlock()",
+    "aswrite-unlock": "w.as_write().unwrap().unlock()",
+    "aswrite-deref-unlock": "w.as_write().unwrap().as_deref().unlock()",
+    "field-unlock": "unlock!(w, Parent, slot)",
+    "deref-field-unlock": "unlock!(w.as_deref(), Parent, slot)",
+}
+STORE = {
+    "Lock": "cell.set(Some(child));",
+    "RefLock": "*cell.borrow_mut() = Some(child);",
+    "OnceLock": "let _ = cell.set(child);",
+}
+for sname, (decl, fdecl, finit) in FORGE_SOURCES.items():
+    kind = "RefLock" if "reflock" in sname else ("OnceLock" if "oncelock" in sname else "Lock")
+    read = {"Lock": "parent.slot.get().map(|c| c.0)", "RefLock": "parent.slot.borrow().map(|c| c.0)", "OnceLock": "parent.slot.get().map(|c| c.0)"}[kind]
+    for pname, path in FORGE_PATHS.items():
+        adopt = f"{decl} let w: &Write<_> = Write::from_mut(&mut src); let cell = {path}; {STORE[kind]}"
+        c13run(f"c13-forge-{sname}-{pname}", fdecl, finit, adopt, read, expect="reject-or-run", note=f"from_mut on {sname}, then {pname}")
 
 # ------------------------------------------------------------------------------------------------
 # C19 half: every Gc<T> obtainable without unsafe refers to a T the caller constructed
